@@ -88,7 +88,7 @@ def run_text(arg):
             if e["k"] == "comment" and L <= len(doc.lines):
                 ln = doc.lines[L - 1]
                 indent = ln[: len(ln) - len(ln.lstrip())]
-            concrete.append((e["k"], L, payload_for(lang, e["k"], e["style"], indent)))
+            concrete.append((e["k"], L, payload_for(lang, e["k"], e["style"], indent, salt=L)))
             tl.append({"k": e["k"], "at": L, "style": e["style"]})
         if not ok:
             unbound += 1
@@ -220,7 +220,7 @@ def every_boundary_file(arg):
     for n, L in enumerate(doc.safe_insert):
         kind = ("blank", "comment", "spaces")[n % 3]
         indent = ""
-        payload = payload_for(lang, kind, 1 + n % 3, indent)
+        payload = payload_for(lang, kind, 1 + n % 3, indent, salt=n)
         new = doc.apply([(kind, L, payload)])
         if not doc.stable(new):
             continue
